@@ -213,7 +213,11 @@ def answer (ts : List String) : String :=
   let starts := ((field ts "starts").splitOn ",").filterMap parseObs
   let edges := parseEdges (field ts "edges")
   let ends := parseEnds (field ts "ends")
+  let stackerrs := parseEnds (field ts "stackerr")
   let bad : Option String :=
+    match firstSome stackerrs (fun e => some s!"kind=vm-stack-error op={opNameAt p e.1.off} at={e.1.show}>{e.2} declared={p.declared}") with
+    | some r => some r
+    | none =>
     match firstSome starts (checkStart p H) with
     | some r => some r
     | none => match firstSome edges (fun e => checkEdge p H e.1 e.2) with
@@ -222,7 +226,10 @@ def answer (ts : List String) : String :=
   let dyn := match bad with
     | some r => s!"dyn-bad {r}"
     | none => s!"dyn-ok starts={starts.length} edges={edges.length} ends={ends.length}"
-  s!"{static} | {dyn}"
+  let crash := match parseObs (field ts "crash") with
+    | some o => s!" | crashed-in op={opNameAt p o.off} at={o.show}"
+    | none => if field ts "crash" == "" then "" else " | crashed-in op=? at=none"
+  s!"{static} | {dyn}{crash}"
 
 def step (_ : Unit) (ts : List String) : Unit × String :=
   match ts with
